@@ -123,6 +123,27 @@ func mismatchedOpen(w *Worker, cfg Cfg, before []byte, viol func(sig, format str
 		viol(sig+"|appended-although-root-exists", "%s: Initialize (err=%v) appended %d bytes to a tape that already has a root directory", what, oerr, len(after)-len(before))
 		return false
 	}
+	if sig == "torn" && oerr == nil {
+		// the open SUCCEEDED over a tape that a from-scratch rebuild cannot index to its end: then what is written through it
+		// afterwards has to be retrievable and has to survive a rebuild, like after any other successful open
+		if err := rig.FS.Mkdir("/c16-after-torn-open", 0o755); err != nil {
+			viol(sig+"|later-mkdir", "%s, yet Initialize succeeded; Mkdir through the opened filesystem: %v", what, err)
+			return false
+		}
+		rig.LocksSettled()
+		if _, err := rig.FS.Stat("/c16-after-torn-open"); err != nil {
+			viol(sig+"|later-stat", "%s, yet Initialize succeeded; the directory made through it cannot be stat-ed: %v", what, err)
+			return false
+		}
+		now, _ := os.ReadFile(drive)
+		tr, _, _, ierr2, herr := scratchState(w, cfg, now)
+		if herr == nil {
+			if _, ok := tr["/c16-after-torn-open"]; ierr2 != nil || !ok {
+				viol(sig+"|later-lost", "%s, yet Initialize succeeded; the directory made through it does not survive a from-scratch rebuild (rebuild err=%v, present=%v)", what, ierr2, ok)
+				return false
+			}
+		}
+	}
 	return true
 }
 
@@ -521,6 +542,6 @@ func openRun(prop, tier string, c Case, w *Worker) (res Result) {
 func init() {
 	register(&Engine{Name: "opens", Props: []string{"C16"}, Cases: openCases, Run: openRun})
 	propMeta["C16"] = PropMeta{Level: "fault_enumeration",
-		Rule:        "per case a tape is produced by a generated history; for EVERY block-aligned prefix length (0, 512, ..., len) whose from-scratch rebuild succeeds and finds a root, combined with the index absent and with the index current for that prefix (the intact tape also through a drive path that is a symbolic link), plus tails behind the intact tape / the tape without end-of-archive marker / an earlier record boundary (1, 2, 3, 7, 64, 5000 and on every fourth tape 70000 zero blocks; junk blocks; zero then junk): construct + Initialize; the drive file must keep its bytes as a prefix and must not grow; on success the walked tree must equal the tree of a from-scratch recovery.Index of the same bytes; a file then written through the instance, a directory made and an older file rewritten must read back byte-exactly, must not disturb older entries and must be present with the same content after another from-scratch rebuild; prefixes that cut inside a record's content or header, unaligned prefixes and stale indexes are the shapes of three open findings and are visited by their witness cases only; non-trivial = at least 6 scenarios checked on a tape of at least 4 records; distinct = distinct tape; per case one open through the directory-cache composition (`serve ftp`) over the cache directory an earlier session - over an earlier state of the tape - left behind; prefixes that end inside a record behind a root and the intact tape opened with other keys / another pipeline (opening may fail, the tape must stay as it is); every fourth tape was initialised with the root proposal './' or '.'; the intact tape is also opened with the index file the writing session left behind",
+		Rule:        "per case a tape is produced by a generated history; for EVERY block-aligned prefix length (0, 512, ..., len) whose from-scratch rebuild succeeds and finds a root, combined with the index absent and with the index current for that prefix (the intact tape also through a drive path that is a symbolic link), plus tails behind the intact tape / the tape without end-of-archive marker / an earlier record boundary (1, 2, 3, 7, 64, 5000 and on every fourth tape 70000 zero blocks; junk blocks; zero then junk): construct + Initialize; the drive file must keep its bytes as a prefix and must not grow; on success the walked tree must equal the tree of a from-scratch recovery.Index of the same bytes; a file then written through the instance, a directory made and an older file rewritten must read back byte-exactly, must not disturb older entries and must be present with the same content after another from-scratch rebuild; prefixes that cut inside a record's content or header, unaligned prefixes and stale indexes are the shapes of three open findings and are visited by their witness cases only; non-trivial = at least 6 scenarios checked on a tape of at least 4 records; distinct = distinct tape; per case one open through the directory-cache composition (`serve ftp`) over the cache directory an earlier session - over an earlier state of the tape - left behind; prefixes that end inside a record behind a root and the intact tape opened with other keys / another pipeline (opening may fail, the tape must stay as it is; if opening a torn prefix succeeds, a directory made through it must be stat-able and survive a from-scratch rebuild); every fourth tape was initialised with the root proposal './' or '.'; the intact tape is also opened with the index file the writing session left behind",
 		Assumptions: []string{"'current' index = the index a from-scratch rebuild of that prefix produces"}}
 }
